@@ -63,24 +63,47 @@ theorem runCommand_skeleton :
          "hook:cmdStart", "execCommand", "hook:cmdEnd"]
         runCommand = true := by decide
 
-/-- `startExecution`: the dedup table is read and written under its mutex, the `waiter` /
-`register` events are logged inside the critical section (so their log order is the table's
-order), a waiter gives its slot back before blocking on `done`, and `done` is closed
-(deferred) around the registered execution. -/
+/-- `startExecution` (after the fix of `C07-once-cycle-deadlocks`): the dedup table and the
+wait-for relation between executions (`execution.waits`) are read and written under the
+table's mutex; the `waitCycle` / `waiter` / `register` events are logged inside the critical
+section (so their log order is the order of the table and of the relation — what the model's
+`Config.execs` / `Config.waits` replay); the reachability check (`waitsFor`) comes before the
+edge of a waiter is added, and a refused wait (`waitCycle`) adds none; a waiter gives its slot
+back before blocking on `done`, and `done` is closed (deferred) around the registered
+execution. -/
 theorem startExecution_skeleton :
-    chk ["getHash", "hashMutex.Lock", "hashMutex.Unlock", "hook:waiter", "hook:register", "hook:wRelease", "defer hook:wReacq",
-         "releaseSlot", "defer reacquire()", "recv:_.done", "hook:wWake", "defer close:done", "defer hook:execDone"]
-        ["getHash", "hashMutex.Lock", "hook:waiter", "hashMutex.Unlock", "hook:wRelease", "defer hook:wReacq", "releaseSlot",
-         "defer reacquire()", "recv:_.done", "hook:wWake", "hook:register", "hashMutex.Unlock", "defer close:done",
-         "defer hook:execDone"]
-        startExecution = true ∧
-    startExecution.getLast? = some "execute" := by decide
+    chk ["getHash", "hashMutex.Lock", "hashMutex.Unlock", "waitsFor", "addWait", "hook:waitCycle", "hook:waiter",
+         "hook:register", "hook:wRelease", "defer hook:wReacq", "releaseSlot", "defer reacquire()", "recv:_.done",
+         "hook:wWake", "defer close:done", "defer hook:execDone"]
+        ["getHash", "hashMutex.Lock", "waitsFor", "hook:waitCycle", "hashMutex.Unlock", "addWait", "hook:waiter",
+         "hashMutex.Unlock", "hook:wRelease", "defer hook:wReacq", "releaseSlot", "defer reacquire()", "recv:_.done",
+         "hook:wWake", "addWait", "hook:register", "hashMutex.Unlock", "defer close:done", "defer hook:execDone"]
+        startExecution = true := by decide
 
-/-- `runDeferred`: a deferred command runs under a context derived from `Background`, not
-from the (possibly cancelled) context of the task, and as the same activation (`adopt`). -/
+/-- `startExecution`, the execution a call is part of (the model's `Act.par` / `Act.inner`): it
+is read from the context before the table is locked, and the registered execution — the last
+thing the function does — runs under a context that carries it (the other `execute`, first in
+the list, is the path of a task that is not deduplicated: same context). -/
+theorem startExecution_context :
+    chk ["execute", "ctxValue", "ctxWithValue", "hashMutex.Lock", "hook:register", "defer hook:execDone"]
+        ["execute", "ctxValue", "hashMutex.Lock", "hook:register", "defer hook:execDone", "execute", "ctxWithValue"]
+        startExecution = true ∧
+    startExecution.getLast? = some "ctxWithValue" := by decide
+
+/-- `runDeferred`: a deferred command runs under a context that is NOT cancelled with the task
+— derived from `context.WithoutCancel` of the task's context (the values, hence the enclosing
+execution, are kept: deferred `task:` calls are covered by the wait-for check) or from
+`Background`, from nothing else — and as the same activation (`adopt`). -/
 theorem runDeferred_skeleton :
-    chk ["ctxWithCancel:background", "ctxWithCancel:other", "hook:adopt", "runCommand"]
-        ["ctxWithCancel:background", "hook:adopt", "runCommand"] runDeferred = true := by decide
+    let p := proj ["ctxWithCancel:background", "ctxWithCancel:withoutCancel", "ctxWithCancel:other", "hook:adopt", "runCommand"]
+      runDeferred
+    (p == ["ctxWithCancel:withoutCancel", "hook:adopt", "runCommand"] ||
+     p == ["ctxWithCancel:background", "hook:adopt", "runCommand"]) = true := by decide
+
+/-- … and in the tree under test it is the task's context without its cancellation -/
+theorem runDeferred_keeps_values :
+    chk ["ctxWithCancel:background", "ctxWithCancel:withoutCancel", "ctxWithCancel:other"]
+        ["ctxWithCancel:withoutCancel"] runDeferred = true := by decide
 
 /-- `Run`: top-level calls are registered with the hook and each goes through `RunTask`. -/
 theorem run_skeleton :
